@@ -9,7 +9,7 @@
 -/
 import NakenVerif.Common.Walk
 import NakenVerif.Riscv.Props
-import NakenVerif.Msp430.RoundTrip
+import NakenVerif.Msp430.Fixpoint
 namespace NakenVerif.Walk
 
 /-- non-vacuity: a concrete tiling (lengths 4, 2, 2, 4 …) -/
